@@ -143,8 +143,28 @@ func gxRecord(c *core.Ctx, progs []*genexec.Prog) *gxTrace {
 			fmt.Fprintf(os.Stderr, "note: the tool failed on B2 package %s (exit %d): %s\n", pk.name, results[i].Exit, firstLine(results[i].Stderr))
 		}
 	}
-	// build; packages whose generated code does not compile are dropped (that is C01's business)
-	for attempt := 0; attempt < 4; attempt++ {
+	// build; programs whose generated function does not compile are dropped (that is C01's business) and
+	// their package is generated again without them
+	writePack := func(pk *pack) {
+		var setup, shared, reg strings.Builder
+		setup.WriteString("//go:build convergen\n\npackage " + pk.name + "\n\ntype Convergen interface {\n")
+		shared.WriteString("package " + pk.name + "\n\nimport \"gxm/vrt\"\n" + genexec.SharedSrc + "\n")
+		reg.WriteString("//go:build !convergen\n\npackage " + pk.name + "\n\n// Registry maps program names to the generated functions.\nvar Registry = map[string]interface{}{\n")
+		for _, p := range pk.progs {
+			for _, n := range p.Notes() {
+				setup.WriteString("\t// " + n + "\n")
+			}
+			setup.WriteString("\t" + p.Method() + "\n")
+			shared.WriteString(p.Decls())
+			fmt.Fprintf(&reg, "\t%q: X%s,\n", p.Name, p.Name)
+		}
+		setup.WriteString("}\n")
+		reg.WriteString("}\n")
+		_ = os.Remove(filepath.Join(root, pk.name, "setup.gen.go"))
+		_ = core.WriteFiles(root, map[string]string{pk.name + "/setup.go": setup.String(), pk.name + "/shared.go": shared.String(), pk.name + "/registry.go": reg.String()})
+	}
+	reLine := regexp.MustCompile(`(p\d+)/setup\.gen\.go:(\d+):`)
+	for attempt := 0; attempt < 5; attempt++ {
 		var imp, regs strings.Builder
 		for _, pk := range good {
 			fmt.Fprintf(&imp, "\t%s \"gxm/%s\"\n", pk.name, pk.name)
@@ -152,35 +172,74 @@ func gxRecord(c *core.Ctx, progs []*genexec.Prog) *gxTrace {
 		}
 		regSrc := "package p\n\nimport (\n" + imp.String() + ")\n\nvar Registry = map[string]interface{}{}\n\nfunc init() {\n" + regs.String() + "}\n"
 		_ = core.WriteFiles(root, map[string]string{"p/reg.go": regSrc, "drv/main.go": genexec.DriverSrc})
-		so, se, code := core.RunCmd(root, core.GoEnv(), "go", "vet", "./drv", "./p")
-		out, ok := so+se, code == 0
-		if ok {
+		so, se, code := core.RunCmd(root, core.GoEnv(), "go", "build", "-gcflags=-e", "./p", "./drv")
+		out := so + se
+		if code == 0 {
 			break
 		}
-		bad := map[string]bool{}
-		for _, l := range strings.Split(out, "\n") {
-			for _, pk := range good {
-				if strings.Contains(l, pk.name+"/") {
-					bad[pk.name] = true
+		// which functions do the diagnostics point into?
+		badProgs := map[string]map[string]bool{}
+		for _, m := range reLine.FindAllStringSubmatch(out, -1) {
+			ln, _ := strconv.Atoi(m[2])
+			gen, err := os.ReadFile(filepath.Join(root, m[1], "setup.gen.go"))
+			if err != nil {
+				continue
+			}
+			lines := strings.Split(string(gen), "\n")
+			for k := ln - 1; k >= 0 && k < len(lines); k-- {
+				if strings.HasPrefix(lines[k], "func X") {
+					name := lines[k][len("func X"):]
+					if i := strings.IndexByte(name, '('); i > 0 {
+						if badProgs[m[1]] == nil {
+							badProgs[m[1]] = map[string]bool{}
+						}
+						badProgs[m[1]][name[:i]] = true
+					}
+					break
 				}
 			}
 		}
-		if len(bad) == 0 || attempt == 3 {
+		if len(badProgs) == 0 || attempt == 4 {
 			core.Machinery("cannot build the B2 driver:\n%s", firstLines(out, 20))
 		}
 		var keep []*pack
 		for _, pk := range good {
-			if bad[pk.name] {
-				t.stats["packages_not_compiling"]++
-				fmt.Fprintf(os.Stderr, "note: generated code of B2 package %s does not compile; dropped\n", pk.name)
-			} else {
+			bp := badProgs[pk.name]
+			if len(bp) == 0 {
 				keep = append(keep, pk)
+				continue
+			}
+			var ps []*genexec.Prog
+			for _, p := range pk.progs {
+				if bp[p.Name] {
+					t.stats["functions_not_compiling"]++
+				} else {
+					ps = append(ps, p)
+				}
+			}
+			pk.progs = ps
+			if len(ps) == 0 {
+				continue
+			}
+			writePack(pk)
+			r := tool.Run(core.RunOpts{Dir: filepath.Join(root, pk.name), Args: []string{"setup.go"}})
+			if r.Exit == 0 {
+				keep = append(keep, pk)
+			} else {
+				t.stats["packages_rejected_by_tool"]++
 			}
 		}
 		good = keep
+		if len(good) == 0 {
+			break
+		}
+	}
+	if t.stats["functions_not_compiling"] > 0 {
+		fmt.Fprintf(os.Stderr, "note: %d generated function(s) do not compile and are left out of the run-time side\n", t.stats["functions_not_compiling"])
 	}
 	if len(good) == 0 {
-		core.Machinery("no B2 package could be generated and compiled (tool rejected %d, %d do not compile)", t.stats["packages_rejected_by_tool"], t.stats["packages_not_compiling"])
+		t.stats["functions"] = 0
+		return t
 	}
 	bin := filepath.Join(root, "drv.bin")
 	if _, se, code := core.RunCmd(root, core.GoEnv(), "go", "build", "-o", bin, "./drv"); code != 0 {
@@ -351,13 +410,22 @@ func gxJudge(c *core.Ctx, t *gxTrace, cfg string, what string) int {
 
 func gxDeviation(p *genexec.Prog, r gxRun, trace []string, at int) string { return "" }
 
-func gxCommon(c *core.Ctx, cfg, what string, nontrivial func(gxRun) bool) {
+func gxCommon(c *core.Ctx, cfg, what string, staticSideExists bool, nontrivial func(gxRun) bool) {
 	keep := 6
 	if c.Thorough() {
 		keep = 1
 	}
 	progs := gxPrograms(c, keep)
 	t := gxRecord(c, progs)
+	if len(t.progs) == 0 && len(t.lines) == 0 && t.stats["functions"] == 0 {
+		// nothing could be generated and compiled: the run-time side cannot be judged
+		if !staticSideExists {
+			core.Machinery("no generated function of the B2 programs could be built (tool rejected %d package(s), %d function(s) do not compile): cannot judge", t.stats["packages_rejected_by_tool"], t.stats["functions_not_compiling"])
+		}
+		fmt.Fprintf(os.Stderr, "note: no generated function of the B2 programs could be built; only the static side is judged\n")
+		c.Set("runtime_side", "not judged: generated functions do not compile")
+		return
+	}
 	if c.Selftest {
 		gxSelftest(c, t, cfg)
 		return
@@ -400,7 +468,7 @@ func C02(c *core.Ctx) {
 	if c.Replay != "" {
 		replayUnsupported(c)
 	}
-	gxCommon(c, "GenExecTraceC02.cfg", "C02", func(r gxRun) bool { return !hasFaults(r) })
+	gxCommon(c, "GenExecTraceC02.cfg", "C02", false, func(r gxRun) bool { return !hasFaults(r) })
 	c.Set("exhaustive", false)
 	c.Set("rule", "programs = sets of statement fragments (field, cast, String(), getter, $n argument, literal, converters with value / pointer argument / error, error-returning mapped getter, four slice shapes, nested struct, nested converter with error, pointer field, skip, no match) x style (pointer return, value return, arg) x six hook combinations, printed by TLC from GenExec.tla; the real generated functions are executed with three value vectors (distinct tokens, zeros / nil slices / nil pointers, empty slices) and every recorded trace must be a behaviour of GenExecTrace with the conjuncts values / frame / src / panic enabled. Non-trivial: runs without injected failure")
 }
@@ -410,7 +478,7 @@ func C07(c *core.Ctx) {
 	if c.Replay != "" {
 		replayUnsupported(c)
 	}
-	gxCommon(c, "GenExecTraceC07.cfg", "C07", hasFaults)
+	gxCommon(c, "GenExecTraceC07.cfg", "C07", false, hasFaults)
 	c.Set("exhaustive", false)
 	c.Set("rule", "the programs of C02 with every subset (up to 32) of their error-capable call sites (converters with error at top level and on a nested path, error-returning getter, pre/post hooks with error) armed to fail; TLC accepts a trace only if no call follows a failed one and the returned error is the failing site's sentinel (nil if none failed). Non-trivial: runs with at least one armed failure")
 }
